@@ -1,7 +1,7 @@
 #!/usr/bin/env python3
 """Collect the confirmed seeded changes into /verif/seeded/<id>/ and write selftest/results.txt + a markdown table.
 
-  selftest/assemble.py <seed_out dir> <results files...>
+  selftest/assemble.py <seed_out dir>[,<seed_out dir>...] <results files...>
 """
 import glob
 import json
@@ -31,11 +31,14 @@ for l in lines:
 
 rows = []
 os.makedirs(os.path.join(ROOT, "seeded"), exist_ok=True)
-for d in sorted(glob.glob(os.path.join(seed_out, "C*", "mut*"))):
+seed_dirs = []
+for so in seed_out.split(","):
+    seed_dirs += [x for x in glob.glob(os.path.join(so, "C*", "mut[0-9]")) if os.path.isdir(x)]
+for d in sorted(seed_dirs, key=lambda x: x.split("/")[-2:]):
     prop, mut = d.split("/")[-2:]
     c = confirm.get((prop, mut))
     name = "%s-%s" % (prop, mut)
-    det = detect.get(name, [])
+    det = detect.get(name, []) + detect.get(name + "x", [])
     meta = json.load(open(os.path.join(d, "meta.json")))
     ok = c and c["demo_on_pristine_rc"] == 0 and c["build_rc"] == 0 and c["demo_on_mutant_rc"] != 0 and c["stable_baseline_tests_passing"] == c["stable_baseline_tests"]
     if not ok:
@@ -53,9 +56,19 @@ for d in sorted(glob.glob(os.path.join(seed_out, "C*", "mut*"))):
     ]
     meta["checks_run_against_it"] = det
     json.dump(meta, open(os.path.join(out, "meta.json"), "w"), indent=1)
-    last = det[-1] if det else {"verdict": "not run", "first_violation": ""}
-    kind = re.search(r"replay=\S+\s+(\S+) \[(\S+)\]", last.get("first_violation", ""))
-    rows.append((name, meta.get("needs", "")[:140].replace("\n", " "), last["verdict"], ("%s [%s]" % kind.groups()) if kind else ""))
+    # verdict per check: the last run of each check counts (a check may have been strengthened and re-run)
+    per = {}
+    for x in det:
+        per[x["check"]] = x
+    verdicts = ", ".join("%s %s" % (k, v["verdict"]) for k, v in sorted(per.items())) or "not run"
+    firsts = []
+    for k, v in sorted(per.items()):
+        kind = re.search(r"replay=\S+\s+(\S+) \[(\S+)\]", v.get("first_violation", ""))
+        if kind:
+            firsts.append("%s: %s [%s]" % (k, kind.group(1), kind.group(2)))
+    history = [x for x in det if x["verdict"] == "MISSED"]
+    note = " (missed before the check was strengthened)" if history and any(v["verdict"] == "DETECTED" for v in per.values()) and any(h["check"] in per and per[h["check"]]["verdict"] == "DETECTED" for h in history) else ""
+    rows.append((name, meta.get("needs", "")[:160].replace("\n", " ").replace("|", "/"), verdicts + note, "; ".join(firsts)))
 
 with open(os.path.join(ROOT, "selftest", "results.txt"), "w") as f:
     f.write("\n".join(lines) + "\n")
